@@ -45,12 +45,15 @@ def life_stage(ck, tier, props, transform=None, tag="life", coherent_only=False,
     if limit:
         vecs = vecs[:limit]
     entries = ["attr", "derive", "split"]
+    grnd = random.Random(dx.seed() + 11)
     mods, meta = [], []
     for i, v in enumerate(vecs):
         entry, order = entries[i % 3], (i // 3) % 2
         generic = i % 4 == 3          # one field of type G, instantiated with W: default bounds at work in a living program
-        mods.append((i, lf.life_module(i, v["L"], v["hist"], entry, order, generic=generic)))
-        meta.append({"entry": entry, "order": order, "generic": generic})
+        # syntactic guises: every second item is written with one or two spellings that mean the same
+        g = grnd.sample(lf.GUISES, grnd.choice([1, 1, 2])) if i % 2 == 1 else []
+        mods.append((i, lf.life_module(i, v["L"], v["hist"], entry, order, generic=generic, guise=g)))
+        meta.append({"entry": entry, "order": order, "generic": generic, "guise": g})
     if transform:
         mods = transform(mods)
     res, failed = run_modules(mods, tag)
@@ -72,19 +75,19 @@ def life_stage(ck, tier, props, transform=None, tag="life", coherent_only=False,
                            "panicked": False, "post": j["post"],
                            "judge": PROP_OF.get(x["act"]) in want and (not coherent_only or v["L"]["mode"] == "coherent")})
             back.append((i, k))
-    n, bad, jst = dx.tlc_judge("Trace_Life", "Trace_Life.cfg", events, tag, chunk=4000)
+    n, bad, jst = dx.tlc_judge("Trace_Life", "Trace_Life.cfg", events, tag, chunk=3000, cut_before=lambda e: e["ev"] != "life")
     ck.add_judge(n, jst)
     for bi in bad:
         i, k = back[bi]
         v, e = vecs[i], events[bi]
         if e["ev"] == "rustc_failed":
-            ck.violation({"kind": "life_rustc_failed", "D": v["L"]["D"], "item": v["L"]["kind"], "diags": json.dumps(failed.get(i))[:300]},
+            ck.violation({"kind": "life_rustc_failed", "D": v["L"]["D"], "item": v["L"]["kind"], "guise": "+".join(meta[i].get("guise") or []), "diags": json.dumps(failed.get(i))[:300]},
                          {"what": "an item every derived trait of which derive_ex must accept does not compile", "L": v["L"], "diags": failed.get(i),
                           "source": mods[i][1]})
             continue
         act = e["x"]["act"] if e["ev"] == "life" else "reset"
         ck.violation({"kind": "life", "act": act, "property_of_call": PROP_OF.get(act), "item": v["L"]["kind"], "D": v["L"]["D"],
-                      "entry": meta[i]["entry"]},
+                      "entry": meta[i]["entry"], "guise": "+".join(meta[i].get("guise") or [])},
                      {"what": "a call in a history on one derived type is not what DxLife prescribes in the state the history reached",
                       "L": v["L"], "history_up_to_here": v["hist"][:k], "step": k, "event": e, "source": mods[i][1]})
     ck.notes["life"] = {"behaviours_replayed": len(vecs), "calls_replayed": sum(1 for e in events if e["ev"] == "life"),
